@@ -48,7 +48,7 @@ PROPS = {
         'not_decided': ['equality of the two separately computed SQL lists (prepare vs batch) beyond the enumerated upgrades'],
     },
     'C06': {
-        'families': ['contracts.hints', 'contracts.native'],
+        'families': ['contracts.hints', 'contracts.appser', 'contracts.native'],
         'level': 'other',
         'technique': 'bounded native run of the round-trip contract (stand-in; deductive container-level contracts in progress)',
         'text': 'Round-trip contract (equal, empty diff both ways, same text) evaluated natively over an enumerated space of '
